@@ -243,6 +243,9 @@ impl<'a> Sys<'a> {
         let mut qs = vec!["SHOW TABLES".to_string()];
         for t in 0..N_TABLES {
             qs.push(format!("SELECT * FROM t{t}"));
+            // answered from the table's live-row counter, not from the rows
+            qs.push(format!("SELECT COUNT(*) FROM t{t}"));
+            qs.push(format!("SELECT COUNT(*) FROM t{t} WHERE g >= 0"));
             for g in 0..N_GROUPS {
                 qs.push(format!("SELECT * FROM t{t} WHERE g = {g}"));
             }
